@@ -153,10 +153,10 @@ func FocusFor(prop string, tier string) Focus {
 			f.Boundary = 10
 		}
 		if prop == "C10" {
-			// C10 quantifies over messages, batch starts and expiries; a zero-height restart cancels the
-			// batch in flight and lets a restarted one-shot context issue its batch again, which the
-			// property neither forbids nor covers
-			f.RestartW = 0
+			// zero-height restarts are part of C10's histories again (third session): the oracle forgets the
+			// batch in flight and the one-shot clause for contexts that lived through one (DESIGN.md 8.6) and
+			// keeps the rest - above all the total of a repeated context, which survives with the counter
+			f.RestartW = 1
 		}
 	case "C12":
 		mul(4, KModCreate)
